@@ -421,6 +421,45 @@ func init() {
 			}
 			return []Value{s.freshVar("nologarg", BV(64))}
 		},
+		"rvField": func(s *State, fn *ssa.Function, args []Value, where string) []Value {
+			// rvField(v, name): value last written by reflect SetUint into field name of the message v was built as
+			iv, ok := args[0].(*IfaceV)
+			if !ok {
+				unsup("rvField of %T", args[0])
+			}
+			name := args[1].(*StringV).litOr("?")
+			if st := s.rvStore[iv.Handle.id]; st != nil {
+				if x, ok := st[name]; ok {
+					return []Value{x}
+				}
+			}
+			return []Value{App("rv_uint_"+sanitize("ptr/elem/field:"+name), BV(64), iv.Handle)}
+		},
+		"rvFieldsSet": func(s *State, fn *ssa.Function, args []Value, where string) []Value {
+			iv, ok := args[0].(*IfaceV)
+			if !ok {
+				unsup("rvFieldsSet of %T", args[0])
+			}
+			return []Value{Const(64, uint64(len(s.rvStore[iv.Handle.id])))}
+		},
+		"sameDynType": func(s *State, fn *ssa.Function, args []Value, where string) []Value {
+			a, ok1 := args[0].(*IfaceV)
+			b, ok2 := args[1].(*IfaceV)
+			if !ok1 || !ok2 {
+				unsup("sameDynType")
+			}
+			return []Value{Eq(a.Type, b.Type)}
+		},
+		"timeSub": func(s *State, fn *ssa.Function, args []Value, where string) []Value {
+			return []Value{App("time_sub", BV(64), args[0].(*OpaqueV).T, args[1].(*OpaqueV).T)}
+		},
+		"lastNow": func(s *State, fn *ssa.Function, args []Value, where string) []Value {
+			k := asTerm(args[0])
+			if k.IsConst() && int(k.Val) < len(s.nowCalls) {
+				return []Value{&OpaqueV{Kind: "time.Time", T: s.nowCalls[k.Val]}}
+			}
+			return []Value{&OpaqueV{Kind: "time.Time", T: s.freshVar("nonow", USort("Time"))}}
+		},
 		"logRetAny": func(s *State, fn *ssa.Function, args []Value, where string) []Value {
 			e := s.logEntry(args[0])
 			k := asTerm(args[1])
@@ -452,6 +491,24 @@ func init() {
 				unsup("mapHasPtr on opaque map")
 			}
 			pr, _ := s.mapGet(mc, s.keyTerm(iv), "")
+			return []Value{pr}
+		},
+		"mapHasKey": func(s *State, fn *ssa.Function, args []Value, where string) []Value {
+			unwrap := func(v Value) Value {
+				if x, ok := v.(*IfaceV); ok && x.Type.IsConst() {
+					return x.alts[int(x.Type.Val)]
+				}
+				return v
+			}
+			m, ok := unwrap(args[0]).(*MapV)
+			if !ok {
+				unsup("mapHasKey on %T", args[0])
+			}
+			mc, ok := s.contents(m.Obj).(*MapContents)
+			if !ok {
+				unsup("mapHasKey on opaque map")
+			}
+			pr, _ := s.mapGet(mc, s.keyTerm(unwrap(args[1])), "")
 			return []Value{pr}
 		},
 		"logArgInt": func(s *State, fn *ssa.Function, args []Value, where string) []Value {
@@ -604,6 +661,92 @@ func init() {
 			}
 			return []Value{Eq(err.Type, Const(32, uint64(typeID(pt.Elem()))))}
 		},
+		"(time.Time).Sub": func(s *State, fn *ssa.Function, args []Value, where string) []Value {
+			return []Value{App("time_sub", BV(64), args[0].(*OpaqueV).T, args[1].(*OpaqueV).T)}
+		},
+		"time.NewTicker": func(s *State, fn *ssa.Function, args []Value, where string) []Value {
+			// *time.Ticker with a channel C; the period is recorded
+			tt := fn.Signature.Results().At(0).Type().(*types.Pointer).Elem()
+			co := s.newObj(types.NewChan(types.RecvOnly, nil), &OpaqueV{Kind: "chan"}, "ticker.C", true)
+			st := tt.Underlying().(*types.Struct)
+			sv := &StructV{Type: tt}
+			for i := 0; i < st.NumFields(); i++ {
+				if st.Field(i).Name() == "C" {
+					sv.Fields = append(sv.Fields, &ChanV{Nil: False, Obj: co})
+				} else {
+					sv.Fields = append(sv.Fields, s.symValue(st.Field(i).Type(), "ticker."+st.Field(i).Name()))
+				}
+			}
+			o := s.newObj(tt, sv, "ticker", true)
+			s.logEvent("time.NewTicker", nil, args...)
+			return []Value{&PtrV{Nil: False, Obj: o, Elem: tt}}
+		},
+		"(*time.Ticker).Stop": logOnly("time.Ticker.Stop"),
+		// --- reflect: a small value-level model.  A reflect.Value is (root handle, path); SetUint on root.Elem().FieldByName(X)
+		// records X := v for that root; Uint on it reads an uninterpreted getter of the root's dynamic value.
+		"reflect.TypeOf": func(s *State, fn *ssa.Function, args []Value, where string) []Value {
+			iv := args[0].(*IfaceV)
+			return []Value{&IfaceV{Type: Const(32, uint64(namedTypeID("opaque:reflect.rtype"))), Handle: ZExt(64, iv.Type), alts: map[int]Value{}}}
+		},
+		"reflect.New": func(s *State, fn *ssa.Function, args []Value, where string) []Value {
+			h := s.freshVar("rv.new", BV(64))
+			t := args[0].(*IfaceV)
+			return []Value{&OpaqueV{Kind: "reflect.Value", T: h, Aux: map[string]Value{"path": strV("ptr"), "root": h, "type": t.Handle}}}
+		},
+		"reflect.ValueOf": func(s *State, fn *ssa.Function, args []Value, where string) []Value {
+			iv := args[0].(*IfaceV)
+			return []Value{&OpaqueV{Kind: "reflect.Value", T: iv.Handle, Aux: map[string]Value{"path": strV("ptr"), "root": iv.Handle, "type": ZExt(64, iv.Type)}}}
+		},
+		"(reflect.Value).Elem": func(s *State, fn *ssa.Function, args []Value, where string) []Value {
+			v := args[0].(*OpaqueV)
+			return []Value{rvPath(v, "elem")}
+		},
+		"(reflect.Value).FieldByName": func(s *State, fn *ssa.Function, args []Value, where string) []Value {
+			v := args[0].(*OpaqueV)
+			return []Value{rvPath(v, "field:"+args[1].(*StringV).litOr("?"))}
+		},
+		"(reflect.Value).SetUint": func(s *State, fn *ssa.Function, args []Value, where string) []Value {
+			v := args[0].(*OpaqueV)
+			root, path := rvRoot(v)
+			if root == nil || !strings.HasPrefix(path, "ptr/elem/field:") {
+				s.logEvent("reflect.SetUint", nil, args...)
+				return nil
+			}
+			if s.rvStore == nil {
+				s.rvStore = map[int]map[string]*Term{}
+			}
+			if s.rvStore[root.id] == nil {
+				s.rvStore[root.id] = map[string]*Term{}
+			}
+			s.rvStore[root.id][strings.TrimPrefix(path, "ptr/elem/field:")] = asTerm(args[1])
+			return nil
+		},
+		"(reflect.Value).Uint": func(s *State, fn *ssa.Function, args []Value, where string) []Value {
+			v := args[0].(*OpaqueV)
+			root, path := rvRoot(v)
+			if root == nil {
+				return []Value{s.freshVar("rv.uint", BV(64))}
+			}
+			if st := s.rvStore[root.id]; st != nil {
+				if x, ok := st[strings.TrimPrefix(path, "ptr/elem/field:")]; ok {
+					return []Value{x}
+				}
+			}
+			return []Value{App("rv_uint_"+sanitize(path), BV(64), root)}
+		},
+		"(reflect.Value).Interface": func(s *State, fn *ssa.Function, args []Value, where string) []Value {
+			v := args[0].(*OpaqueV)
+			root, _ := rvRoot(v)
+			if root == nil {
+				return []Value{s.symValue(types.NewInterfaceType(nil, nil), "rv.iface")}
+			}
+			ty := Const(32, 0)
+			if t, ok := v.Aux["type"].(*Term); ok {
+				ty = Extract(31, 0, t)
+			}
+			// a value built by reflect.New(TypeOf(m).Elem()) has the dynamic type of m
+			return []Value{&IfaceV{Type: ty, Handle: root, alts: map[int]Value{}, Static: types.NewInterfaceType(nil, nil)}}
+		},
 		"bytes.Repeat": func(s *State, fn *ssa.Function, args []Value, where string) []Value {
 			b := args[0].(*SliceV)
 			cnt := asTerm(args[1])
@@ -694,6 +837,10 @@ func init() {
 			err := s.symValue(errorType(), "close.err")
 			s.log = append(s.log, LogEntry{Callee: "io.Closer.Close", Target: recv, Arr: &ArrZero{W: 8}, Off: Const(64, 0), N: Const(64, 0), RetN: Const(64, 0), Err: err})
 			return []Value{err}
+		},
+		"reflect.Type.Elem": func(s *State, recv *IfaceV, args []Value, where string) []Value {
+			// TypeOf(m).Elem(): the struct type behind the pointer; kept as the same handle (the dynamic type id of m)
+			return []Value{recv}
 		},
 		"net.Conn.SetReadDeadline":  connCall("SetReadDeadline"),
 		"net.Conn.SetWriteDeadline": connCall("SetWriteDeadline"),
@@ -1140,4 +1287,36 @@ func logOnly(name string) intrinsicFn {
 		s.logEvent(name, nil, args...)
 		return nil
 	}
+}
+
+func strV(x string) *StringV {
+	return &StringV{Lit: &x, Len: Const(64, uint64(len(x))), Arr: &ArrBytes{B: []byte(x)}}
+}
+
+func rvPath(v *OpaqueV, step string) *OpaqueV {
+	n := &OpaqueV{Kind: "reflect.Value", T: v.T, Aux: map[string]Value{}}
+	for k, x := range v.Aux {
+		n.Aux[k] = x
+	}
+	p := "?"
+	if sv, ok := v.Aux["path"].(*StringV); ok {
+		p = sv.litOr("?")
+	}
+	n.Aux["path"] = strV(p + "/" + step)
+	return n
+}
+
+func rvRoot(v *OpaqueV) (*Term, string) {
+	if v.Aux == nil {
+		return nil, ""
+	}
+	r, ok := v.Aux["root"].(*Term)
+	if !ok {
+		return nil, ""
+	}
+	p := ""
+	if sv, ok := v.Aux["path"].(*StringV); ok {
+		p = sv.litOr("")
+	}
+	return r, p
 }
